@@ -496,6 +496,15 @@ def apply_hoist(toks, hoist, hits):
         if toks[e - 1].text != ';':
             raise LostAnchor('%s: statement end not found' % rule)
         cut = toks[k:e]
+    elif kind == 'block':
+        # a for/while/if statement: through the end of its first depth-0 brace group
+        j = k
+        while j < len(toks) and not (toks[j].kind == 'punct' and toks[j].text == '{'):
+            if toks[j].kind == 'punct' and toks[j].text in '([':
+                j = match_close(toks, j)
+            j += 1
+        e = match_close(toks, j) + 1
+        cut = toks[k:e]
     else:
         e = expr_end(toks, k)
         cut = toks[k:e]
